@@ -45,6 +45,16 @@ def profile(tier):
     }
 
 
+def profile_dmm(tier):
+    """DMM-heavy programs: detuning maps, DMM pulses and aligns that size delays on the DMM."""
+    p = profile(tier)
+    return dict(p, weights={"declare": 6, "declare_more": 1, "add": 8, "align": 7, "delay": 2,
+                            "phase_shift": 1, "target": 1, "eom": 0, "add_dmm": 7, "detmap": 5,
+                            "slm": 1, "measure": 0},
+                device=gen.device_specs(n_channels=(1, 2), allow_builtin=False, n_dmm=(1, 2),
+                                        chan_kw={"bandwidth": [None, 8], "eom": False}))
+
+
 @st.composite
 def mutate_channel(draw, c):
     c = copy.deepcopy(c)
@@ -56,7 +66,7 @@ def mutate_channel(draw, c):
         if m == "clock":
             c["clock_period"] = draw(st.sampled_from([1, 2, 4, 8]))
         elif m == "min_duration":
-            c["min_duration"] = draw(st.sampled_from([1, 4, 16, 20]))
+            c["min_duration"] = draw(st.sampled_from([1, 4, 16, 20, 100]))
             if c.get("max_duration") is not None:
                 c["max_duration"] = max(c["max_duration"], c["min_duration"])
         elif m == "max_duration":
@@ -103,12 +113,51 @@ def mutate_channel(draw, c):
 
 
 @st.composite
-def cases(draw, tier):
-    base = c08.normalise(draw(gen.programs(profile(tier))))
+def mutate_dmm(draw, d):
+    d = copy.deepcopy(d)
+    for m in draw(st.lists(st.sampled_from(["clock", "min_duration", "min_duration", "max_duration",
+                                            "bandwidth", "bottom"]),
+                           min_size=0, max_size=2, unique=True)):
+        if m == "clock":
+            d["clock_period"] = draw(st.sampled_from([1, 2, 4, 8]))
+        elif m == "min_duration":
+            # (large values: most automatically sized delays become shorter than the minimum)
+            d["min_duration"] = draw(st.sampled_from([1, 4, 16, 20, 100, 400]))
+            if d.get("max_duration") is not None:
+                d["max_duration"] = max(d["max_duration"], d["min_duration"])
+        elif m == "max_duration":
+            d["max_duration"] = max(draw(st.sampled_from([2**26, 5000])), d.get("min_duration", 1))
+        elif m == "bandwidth":
+            bw = draw(st.sampled_from([None, 4, 8, 20]))
+            if bw is None:
+                d.pop("mod_bandwidth", None)
+            else:
+                d["mod_bandwidth"] = bw
+        elif m == "bottom" and d.get("bottom_detuning") is not None:
+            d["bottom_detuning"] = d["bottom_detuning"] * draw(st.sampled_from([0.5, 2.0]))
+            if d.get("total_bottom_detuning") is not None and d["bottom_detuning"] < d["total_bottom_detuning"]:
+                d["total_bottom_detuning"] = d["bottom_detuning"] * 3
+    return d
+
+
+@st.composite
+def cases(draw, tier, prof=profile):
+    base = c08.normalise(draw(gen.programs(prof(tier))))
     A = base["device"]
     B = copy.deepcopy(A)
     B["name"] = "GenDevB"
-    B["channels"] = [draw(mutate_channel(c)) for c in A["channels"]]
+    dmm_focus = prof is profile_dmm and draw(st.booleans())
+    if not dmm_focus:
+        B["channels"] = [draw(mutate_channel(c)) for c in A["channels"]]
+    if B.get("dmms") and (prof is profile_dmm or draw(st.booleans())):
+        if dmm_focus and draw(st.booleans()):
+            # only the DMM's minimum duration changes: nothing strict matching looks at
+            for d in B["dmms"]:
+                d["min_duration"] = draw(st.sampled_from([4, 20, 100, 400]))
+                if d.get("max_duration") is not None:
+                    d["max_duration"] = max(d["max_duration"], d["min_duration"])
+        else:
+            B["dmms"] = [draw(mutate_dmm(d)) for d in B["dmms"]]
     if draw(st.booleans()):
         B["channels"] = [B["channels"][i] for i in draw(st.permutations(list(range(len(B["channels"])))))]
     if draw(st.integers(0, 3)) == 0:
@@ -140,7 +189,8 @@ def cases(draw, tier):
             c["max_abs_detuning"] = c.get("max_abs_detuning") or TWO_PI * 20
     moved = [[x + draw(st.sampled_from([0.0, 0.0, 1.0, -2.0])) * (i + 1) for x in p]
              for i, p in enumerate(base["register"]["coords"])]
-    return dict(base=base, devB=B, strict=draw(st.booleans()), moved=moved)
+    strict = draw(st.booleans()) or (dmm_focus and draw(st.booleans()))
+    return dict(base=base, devB=B, strict=strict, moved=moved)
 
 
 def timing_differs(A, B) -> bool:
@@ -148,6 +198,9 @@ def timing_differs(A, B) -> bool:
     for c in B["channels"]:
         o = a.get((c["kind"], c["addr"]))
         if o and any(o.get(k) != c.get(k) for k in TIMING):
+            return True
+    for x, y in zip(A.get("dmms", []), B.get("dmms", [])):
+        if any(x.get(k) != y.get(k) for k in TIMING):
             return True
     return False
 
@@ -190,12 +243,28 @@ def check(case, ctx: Ctx):
                            [n for n in new.declared_channels if n.startswith("dmm_")]))
             ta = {ren.get(k, k): v for k, v in ta.items()}
             d = snap.diff(ta, tb)
-            if d:
+            slm_only = None
+            if d and seq._slm_mask_dmm:
+                # the automatically generated SLM-mask pulse (detuning -10 max(amp), bounded
+                # by the DMM's bottom_detuning): the only difference, same slots?
+                m = ren.get(seq._slm_mask_dmm, seq._slm_mask_dmm)
+                tim = lambda t: {k: [x[:4] for x in v] for k, v in t.items()}  # noqa: E731
+                rest = lambda t: {k: v for k, v in t.items() if k != m}  # noqa: E731
+                if m in ta and m in tb and not snap.diff(tim(ta), tim(tb)) and not snap.diff(rest(ta), rest(tb)):
+                    slm_only = seq._slm_mask_dmm
+                    oa = seq._schedule[slm_only].channel_obj
+                    ob = new._schedule[m].channel_obj
+                    ctx.fail(C, "strict:slm_mask_detuning_changed",
+                             f"strict switch kept the timing but changed the SLM-mask detuning on {slm_only}: {d}; "
+                             f"bottom_detuning {oa.bottom_detuning} -> {ob.bottom_detuning}", cont=True)
+            if d and not slm_only:
                 ctx.fail(C, "strict:timeline_changed", f"strict switch changed the timeline: {d}; "
                                                        f"A={_chdiff(base['device'], case['devB'])}")
             if not seq.is_register_mappable():
                 sa, sb = sample(seq), sample(new)
                 for n in seq.declared_channels:
+                    if n == slm_only:
+                        continue
                     for key in ("amp", "det", "phase"):
                         xa = np.asarray(getattr(sa.channel_samples[n], key).as_array())
                         xb = np.asarray(getattr(sb.channel_samples[ren.get(n, n)], key).as_array())
@@ -261,4 +330,7 @@ CLAUSES = [
     Clause("switch", check, gen=lambda t: cases(t),
            budget={"quick": (16, 250), "thorough": (16, 6000)},
            doc="switch_device strict/non-strict and switch_register"),
+    Clause("switch_dmm", check, gen=lambda t: cases(t, profile_dmm),
+           budget={"quick": (16, 150), "thorough": (16, 3000)},
+           doc="DMM-heavy programs (detuning maps, aligns on DMM channels) x DMM parameter changes"),
 ]
